@@ -277,7 +277,7 @@ Fixpoint nodup_posb (l : list pos) : bool :=
   match l with [] => true | p :: r => negb (mem_pos p r) && nodup_posb r end.
 Fixpoint nodup_Nb (l : list N) : bool :=
   match l with [] => true | x :: r => negb (memN x r) && nodup_Nb r end.
-Definition elem_ok (e : elem) : bool := nodup_Nb (e_tags e) && negb (refs (e_pos e) e).
+Definition elem_ok (e : elem) : bool := nodup_Nb (e_tags e).
 Definition elems_ok (es : list elem) : bool := nodup_posb (map e_pos es) && forallb elem_ok es.
 
 (* ---------- the edit paths ---------- *)
